@@ -213,8 +213,10 @@ ApplyItems(r, k, st, start) ==
               \* that is changed and referenced later): take the source from the state before the rule fired
               LET src == slot[stream[start + (k - 1) + it.ref]] IN
               ApplyItems(r, k + 1, [st EXCEPT !.slot[id] = upd([s0 EXCEPT !.gid = src.gid, !.adv = src.adv, !.user = src.user, !.user2 = src.user2, !.shift = src.shift]), !.at = st.at + 1, !.feats = fs], start)
-         [] it.op = "delete" ->
-              ApplyItems(r, k + 1, [st EXCEPT !.stream = SubSeq(st.stream, 1, st.at - 1) \o SubSeq(st.stream, st.at + 1, Len(st.stream)), !.feats = fs], start)
+         [] it.op = "delete" ->      \* the slot leaves the stream; what was attached to it becomes a base again (opcode delete_)
+              ApplyItems(r, k + 1, [st EXCEPT !.stream = SubSeq(st.stream, 1, st.at - 1) \o SubSeq(st.stream, st.at + 1, Len(st.stream)),
+                                              !.slot = [j \in DOMAIN st.slot |-> IF st.slot[j].par = id THEN [st.slot[j] EXCEPT !.par = 0] ELSE st.slot[j]],
+                                              !.feats = fs], start)
          [] it.op = "insert" ->      \* a new slot before this item, then the item itself is kept
               LET nid == st.nextid
                   g == Classes[it.cls][1]
